@@ -47,3 +47,15 @@ check('C13', 'other',
       'Proved: wave_capture_cpu and wave_capture_gpu against folds over the waveform (init, EAT, LST, final, value just before T, overflow marker), Q4 rise/fall counts and Q6 overflow propagation of _wave_eval. Bounded: capacity-independence when the indicator is clear, abuf totals, a_ctrl plumbing.',
       'sd = 0; extended-real time model; accumulation loop and capacity relation bounded only',
       'contract-based deductive verification with ghost fold functions + bounded stand-in', 'DESIGN.md 5-C13')
+check('C09', 'other',
+      'Bounded (deciding): wf class invariant after every step of edit histories over the public API (exhaustive small + seeded long). Container primitives under contract where discharged (see evidence).',
+      'well-formed use per the property; object-graph constructors/removers bounded only',
+      'runtime class invariant as bounded stand-in; container primitives by pyvc when present', 'DESIGN.md 5-C09')
+check('C10', 'exploration',
+      'Bounded over circuits and pin subsets, complete over input valuations (z3): every library cell and synthetic implementation shape resolves without exception, keeps wf, names/order of ports and state elements, and the observed function; copy/pickle/eliminate and compositions on the shared circuit space.',
+      'spec evaluator incl. hierarchical instance semantics is the oracle; no deductive part within reach (object surgery)',
+      'bounded runtime contracts with z3 equivalence per instance', 'DESIGN.md 5-C10')
+check('C19', 'other',
+      'Finite configuration space enumerated completely: postcondition of TechLib.__init__ on the five library texts (names expand, pin tables, implementation ports) and datasheet function of every family cell on all input combinations (truth tables by the real LogicSim).',
+      'spec.datasheet is the oracle; runtime-evaluated contract, exhaustive, not a symbolic proof',
+      'exhaustive evaluation of a postcondition over a finite configuration space', 'DESIGN.md 5-C19')
